@@ -46,7 +46,7 @@ func ParseTo(s string) (*To, error) {
 				return nil, err
 			}
 		} else {
-			r.addrSpec, err = ParseAddrSpec(s[0 : pos+1])
+			r.addrSpec, err = ParseAddrSpec(s[0:pos])
 			if err != nil {
 				return nil, err
 			}
